@@ -439,6 +439,21 @@ def tp_family(spec):
         Z = np.array([[1, 0], [0, -1]], dtype=complex)
         p = spec["p"]
         return [np.sqrt(pk) * m for pk, m in zip(p, [np.eye(2, dtype=complex), X, Y, Z]) if pk > 0]
+    if t == "mixed_dtype":  # trace-preserving families whose operators have DIFFERENT dtypes, the narrowest one first
+        v = spec["v"]
+        if v == 0:
+            return [np.sqrt(0.5) * np.eye(2), np.sqrt(0.3) * np.array([[0, -1j], [1j, 0]]), np.sqrt(0.2) * np.diag([1, 1j])]
+        if v == 1:
+            return [np.array([[1, 0], [0, 0]]), np.array([[0, 0], [0, 1j]])]
+        if v == 2:
+            g = 0.3
+            return [np.diag([1.0, np.sqrt(1 - g)]), 1j * np.array([[0, np.sqrt(g)], [0, 0]])]
+        if v == 3:
+            w = np.exp(2j * np.pi / 3)
+            return [np.sqrt(0.5) * np.eye(3), np.sqrt(0.5) * np.diag([1, w, w * w])]
+        if v == 4:  # float32 first, float64 later (precision is lost if the output takes the first operator's dtype)
+            c, s_ = np.cos(0.3), np.sin(0.3)
+            return [0.5 * np.eye(2, dtype=np.float32), np.sqrt(0.75) * np.array([[c, -s_], [s_, c]])]  # 0.5 is exact in float32
     if t == "iso_rot":  # isometry family followed by a unitary on the output and preceded by one on the input: still TP
         ks = ch.isometry_family(spec["d"], spec["r"], spec["u"])
         W = catalog.unitary(spec["d"], "g1")
@@ -458,6 +473,8 @@ def comp_specs(tier):
                 out.append({"t": "iso_rot", "d": d, "r": r, "u": u})
     for g in (0.0, 0.1, 0.25, 0.5, 0.75, 0.9, 1.0):
         out.append({"t": "amp", "g": g})
+    for v in range(5):
+        out.append({"t": "mixed_dtype", "v": v, "d": 3 if v == 3 else 2})
     for p in ([0.5, 0.5, 0, 0], [0.5, 0, 0.25, 0.25], [0.25, 0.25, 0.25, 0.25], [0.7, 0.1, 0.1, 0.1], [0, 0.5, 0.5, 0]):
         out.append({"t": "pauli", "p": p})
     return out
